@@ -28,9 +28,36 @@ static void one(const std::string &s)
     ascon::byte_array d = ascon::bytes_from_data(e, want);
     if (d.size() != want || (want && memcmp(d.data(), e, want))) hx_fail("hex:cpp:bytes_from_data", "wrong copy");
 }
+#if defined(ARDUINO)
+/* the Arduino configuration (String instead of std::string): every length 0..300, both cases, the pointer and the byte_array overloads, and the way back through bytes_from_hex(String) */
+static unsigned char ard_data[300]; static char ard_want[601];
+__attribute__((noinline)) static void ard_expect(size_t n, int uc)
+{
+    static const char lo[] = "0123456789abcdef", up[] = "0123456789ABCDEF"; const char *d = uc ? up : lo;
+    for (size_t i = 0; i < n; i++) { ard_want[2 * i] = d[ard_data[i] >> 4]; ard_want[2 * i + 1] = d[ard_data[i] & 15]; } ard_want[2 * n] = 0;
+}
+static void arduino_helpers()
+{
+    unsigned char *data = ard_data; char *want = ard_want;
+    for (int i = 0; i < 300; i++) data[i] = (unsigned char)(i * 37 + 11);
+    for (size_t n = 0; n <= 300; n++) for (int uc = 0; uc < 2; uc++) {
+        ard_expect(n, uc);
+        String h1 = ascon::bytes_to_hex(data, n, uc != 0), h2 = ascon::bytes_to_hex(ascon::bytes_from_data(data, n), uc != 0);
+        hx_stat("evaluations", 3); hx_stat("nontrivial", 1);
+        if (h1.length() != 2 * n || strcmp(h1.c_str(), want)) hx_fail("hex:cpp:bytes_to_hex", "Arduino bytes_to_hex(ptr, %zu) returns %u characters / other text than the C function", n, h1.length());
+        if (h2.length() != 2 * n || strcmp(h2.c_str(), want)) hx_fail("hex:cpp:bytes_to_hex", "Arduino bytes_to_hex(byte_array of %zu) returns %u characters / other text than the C function", n, h2.length());
+        ascon::byte_array back = ascon::bytes_from_hex(String(want));
+        if (back.size() != n || (n && memcmp(back.data(), data, n))) hx_fail("hex:cpp:bytes_from_hex", "Arduino bytes_from_hex(String) of %zu encoded bytes returns %zu bytes", n, back.size());
+    }
+    hx_sample("Arduino configuration: bytes_to_hex (pointer, byte_array) and bytes_from_hex(String) for every length 0..300, both cases");
+}
+#endif
 int main()
 {
     hx_init();
+#if defined(ARDUINO)
+    arduino_helpers();
+#endif
     static const std::string parts[] = {"", "0", "a", "0a", "0A", "ff", "  ", " ", "\t", "\n", "g", "0b1c", "Ab", "3", "\r\n", ":", std::string("\0", 1), std::string("\0" "7", 2)};   /* a std::string may hold NUL characters */
     int np = sizeof parts / sizeof parts[0];
     for (int a = 0; a < np; a++) for (int b = 0; b < np; b++) for (int c = 0; c < np; c++) for (int d = 0; d < np; d++)
